@@ -824,7 +824,9 @@ def _takewhile_cut(e: Engine, rep: Report, g, ctx, where, now):
     PRED must compare the entry's timestamp (entry[0]) with `now`."""
     kind = None
     for n in g.of_kind('stmt'):
-        if not isinstance(n.ast, ast.Assign):
+        # (the count may be what a helper returns)
+        if not isinstance(n.ast, (ast.Assign, ast.Return)) or \
+                n.ast.value is None:
             continue
         pred = _takewhile_pred(n.ast.value, n.frame)
         if pred is None:
